@@ -990,6 +990,17 @@ fn hook_cell(addr: *const u8, _size: usize) {
 type Job = Box<dyn FnOnce() + Send>;
 static POOL: Mutex<Vec<Option<std::sync::mpsc::Sender<Job>>>> = Mutex::new(Vec::new());
 
+/// after a fatal execution (deadlock, livelock, horizon) the pool threads that took part in it
+/// are parked for ever: forget them, fresh ones are created on demand
+pub fn abandon_pool() {
+    let mut p = POOL.lock().unwrap();
+    for s in p.iter_mut() {
+        if let Some(tx) = s.take() {
+            std::mem::forget(tx);
+        }
+    }
+}
+
 fn run_on_pool(tid: usize, job: Job) {
     let mut p = POOL.lock().unwrap();
     while p.len() <= tid {
